@@ -423,10 +423,16 @@ class NtsSim:
         self.addrs.pop(j, None)
 
 
+NTS_UNRESOLVABLE = True      # set to False by main() in the quick tier
+
+
 def nts_gen_case(rng, stats, hang, srv):
     """hang: number of never-answered connections this case may contain (each costs 5 s of wall
     time in its worker thread)"""
-    names = rng.sample([1, 2, 3, 4, 5, 255, 256, 4999, 9000, 9001, 5000, 5001], rng.randint(2, 6))
+    # 5000/5001 are names that do not resolve: the real resolver is asked, which can take many seconds per lookup in
+    # an environment without network; the quick tier keeps them to a handful of fixed cases (NTS_UNRESOLVABLE)
+    pool_names = [1, 2, 3, 4, 5, 255, 256, 4999, 9000, 9001] + ([5000, 5001] if NTS_UNRESOLVABLE else [])
+    names = rng.sample(pool_names, rng.randint(2, 6))
     srvs = rng.sample([0, 1, 2, 3, 5, 257, 511], rng.randint(1, 4))
     count = rng.choice([0, 1, 1, 2, 2, 2, 3, 3, 4, 5])
     sim = NtsSim(count, srv)
@@ -643,8 +649,10 @@ def main():
                       "cases_ending_with_leftover_known_ips": skipped_known,
                       "final_active_sources_histogram": dict(sorted(final_sizes.items()))})
     # ---- NTS pool part: generated after the pool cases, so those are the same as before for a given seed
+    global NTS_UNRESOLVABLE
+    NTS_UNRESOLVABLE = c.tier != "quick"
     nts_cases = nts_fixed_cases()
-    n_nts, n_hang = (400, 40) if c.tier == "quick" else (4000, 400)
+    n_nts, n_hang = (400, 12) if c.tier == "quick" else (4000, 400)
     for i in range(n_nts):
         # a few cases contain connections that are never answered (5 s each; they overlap in the harness's worker threads)
         nts_cases.append(nts_gen_case(rng, stats, hang=(rng.choice([1, 1, 2]) if i < n_hang else 0), srv=i % 2))
